@@ -759,14 +759,16 @@ class P(Prop):
                 ".* / ! (Filter), >> << (ShiftCircular, s& s$); their strings are compared up to the parser only (stream str)")
     trusted = ["float(), str.replace/split/strip, numpy.argsort (NaN last), math.sqrt, float ** float are modelled by contract",
                "the feature table is modelled as an insertion-ordered association list (its index-remapping representation is C01's subject)"]
-    rule = ("expression trees over names {a,b,x,y,z,t,idx,speed_2}, literals {0,1,2,0.5,(3,4,0.25,10 in the random stream)} and decimal literals reaching the "
+    rule = ("expression trees over names {a,b,x,y,z,t,idx,speed_2 - in 30 % of the random cases the third feature goes under another legitimate name: ax, t2, Dx, idx_1, "
+            "AVGs, x_y, inf_, e, pi, E1, I0, yaw, xt, SUMa, n}, literals {0,1,2,0.5,(3,4,0.25,10 in the random stream)} and decimal literals reaching the "
             "ends of the double range (2.5e-309 ... 1e308, 2**53+1, 30-digit integers, an infinite one), the other tokens float() reads "
             "(1e5, 2.5E3, .5e1, 1_0e1_0, inf, nan, Infinity), operators + - * / ^ < >, "
             "unary minus (parenthesised form and the bare positions: start, after =, ( and {, after + or -), redundant parentheses, the "
             "functions I D D2 ABS SQRT LOG DIODE SIGN EXP COS SIN TAN, SUM AVG VAR STD MSE RMSE MAD MIN MAX MEDIAN ARGMIN ARGMAX and the ' shorthand; "
             "all trees of depth <= 2 (x lhs none/new/existing/coordinate), depth <= 3 over a small alphabet, random to depth 6; reflexive forms a+=e; "
             "tracks of 1..5 observations whose positions are ENUCoords (60 %), GeoCoords (30 %, half of them with longitudes along / across the antimeridian, "
-            "kept continuous past +-180 or in the 0..360 convention) or ECEFCoords (10 %), of three kinds: small values with 0, negatives, equal values, NaN; 'scaled' = a small pattern times one "
+            "kept continuous past +-180 or in the 0..360 convention) or ECEFCoords (10 %), a quarter of them with one or two features created and "
+            "removed again before the judged call (feature table with remapped indices), of three kinds: small values with 0, negatives, equal values, NaN; 'scaled' = a small pattern times one "
             "magnitude anywhere between 5e-324 and 1.8e308 (subnormals, below machine epsilon, beyond 2**53, near overflow); 'wide' = independent "
             "values over the whole double range with +-0.0, +-inf, NaN; optional spaces and ** for ^; entry points Track.operate(expr), Track.op(expr), "
             "Track[expr] (function calls alone included, fix 396f8f9; a number alone is a feature name for that front end and is not sent through it), Track.operate(expr, {name: value}) with numbers given by "
@@ -799,8 +801,20 @@ class P(Prop):
         cls = self.COORDS[env.get("coords", "ENU")]
         for i in range(env["n"]):
             t.addObs(self.Obs(cls(env["x"][i], env["y"][i], env["z"][i]), self.ObsTime.readUnixTime(env["t"][i])))
-        for k, c in env["feats"]:
+        # "ghost": features [position, name, column] that were created (at that position of the creation order) and
+        # removed again before the judged call: the table the evaluator works on is then one whose indices have been
+        # remapped by earlier deletions (state left by earlier calls); model and oracle see env["feats"] only
+        ghosts = env.get("ghost", ())
+        for i, (k, c) in enumerate(env["feats"]):
+            for pos, gk, gc in ghosts:
+                if pos == i:
+                    t.createAnalyticalFeature(gk, list(gc))
             t.createAnalyticalFeature(k, list(c))
+        for pos, gk, gc in ghosts:
+            if pos >= len(env["feats"]):
+                t.createAnalyticalFeature(gk, list(gc))
+        for pos, gk, gc in ghosts:
+            t.removeAnalyticalFeature(gk)
         return t
 
     def state(self, t):
@@ -875,6 +889,10 @@ class P(Prop):
                 else:
                     env["x"] = [rng.choice(GEO_LONS) for _ in range(n)]
                 env["y"] = [rng.choice(GEO_LATS) for _ in range(n)]
+        if rng.random() < 0.25:
+            # one or two features created and removed again before the judged call (indices of the table remapped)
+            env["ghost"] = [[rng.randrange(4), gk, [rng.choice([7.0, -7.0, 0.0, NAN]) for _ in range(n)]]
+                            for gk in rng.sample(["g", "zz", "a2"], rng.choice([1, 1, 2]))]
         return env
 
     def fix_env(self, env):
@@ -919,6 +937,23 @@ class P(Prop):
         if r < 0.80:
             return ["par", self.rand_tree(rng, d - 1, wide)]
         return ["call", rng.choice(FUNCS), self.rand_tree(rng, d - 1, wide)]
+
+    # other legitimate names for the third feature: with a reserved name as a prefix / suffix, a function name inside, the
+    # names of mathematical constants, words float() almost reads
+    ALT_NAMES = ["ax", "t2", "Dx", "idx_1", "AVGs", "x_y", "inf_", "e", "pi", "E1", "I0", "yaw", "xt", "SUMa", "n"]
+
+    def rename(self, t, old, new):
+        if t[0] in ("var", "prime"):
+            return [t[0], new] if t[1] == old else t
+        return [self.rename(c, old, new) if isinstance(c, list) else c for c in t]
+
+    def alt_names(self, rng, env, trees, p=0.3):
+        """with probability p the feature speed_2 of the track (and of the trees) goes under another name"""
+        if rng.random() >= p:
+            return trees
+        new = rng.choice(self.ALT_NAMES)
+        env["feats"] = [[new if k == "speed_2" else k, c] for k, c in env["feats"]]
+        return [self.rename(t, "speed_2", new) for t in trees]
 
     def subst_var(self, t, rng, names):
         """some variable leaves replaced by names defined by earlier statements"""
@@ -1050,6 +1085,7 @@ class P(Prop):
             if has_call_of_constant(t):
                 continue
             env = self.fix_env(self.rand_env(rng, easy=rng.random() < 0.4))
+            t, = self.alt_names(rng, env, [t])
             lhs = rng.choice([None, None, "c", "a", "b", "x", "y", "z"])
             c = self.mk_case(t, env, lhs, bare=rng.random() < 0.5, spaces=rng.random() < 0.2, stars=rng.random() < 0.2)
             if rng.random() < 0.2 and t[0] != "num":
@@ -1084,6 +1120,7 @@ class P(Prop):
             if has_call_of_constant(t):
                 continue
             env = self.fix_env(self.rand_env(rng, style="scaled" if rng.random() < 0.65 else "wide"))
+            t, = self.alt_names(rng, env, [t])
             lhs = rng.choice([None, None, "c", "a", "b", "x", "y"])
             c = self.mk_case(t, env, lhs, bare=rng.random() < 0.5, spaces=rng.random() < 0.1, stars=rng.random() < 0.1)
             if rng.random() < 0.2 and t[0] != "num":
@@ -1113,6 +1150,10 @@ class P(Prop):
                 t = self.subst_var(t, rng, defined)
             if has_call_of_constant(t) or any(has_call_of_constant(p["tree"]) for p in pre):
                 continue
+            trs = self.alt_names(rng, env, [t] + [p["tree"] for p in pre])
+            if trs[0] is not t:
+                t = trs[0]
+                pre = [{"lhs": p["lhs"], "tree": pt, "expr": self.mk_case(pt, env, p["lhs"], bare=rng.random() < 0.5)["expr"]} for p, pt in zip(pre, trs[1:])]
             c = self.mk_case(t, env, rng.choice([None, None, "c", "a", "x", "e"]), bare=rng.random() < 0.5)
             c["pre"] = pre
             if rng.random() < 0.3:
@@ -1212,7 +1253,11 @@ class P(Prop):
     def describe(self, case):
         t = {"kind": case["kind"]}
         if case["kind"] == "expr":
-            t["lhs"] = {None: "none", "c": "new", "a": "existing", "b": "existing"}.get(case["lhs"], "coordinate")
+            lhs = case["lhs"]
+            made = {k for k, _ in case["env"]["feats"]} | {p.get("lhs") for p in case.get("pre", ())}
+            t["lhs"] = "none" if lhs is None else ("coordinate" if lhs in ("x", "y", "z") else ("existing" if lhs in made else "new"))
+            t["names"] = "standard" if any(k == "speed_2" for k, _ in case["env"]["feats"]) else "other"
+            t["removed_before"] = len(case["env"].get("ghost", ()))
             t["depth"] = depth(case["tree"])
             t["n"] = case["env"]["n"]
             t["sign"] = "bare" if case["bare"] else "paren"
@@ -1583,6 +1628,8 @@ class P(Prop):
             env = case["env"]
             if case.get("spaces") or case.get("stars"):
                 yield rebuilt(t, spaces=False, stars=False)
+            if env.get("ghost"):
+                yield rebuilt(t, env={k: v for k, v in env.items() if k != "ghost"})
             if env.get("coords", "ENU") != "ENU":
                 yield rebuilt(t, env={k: v for k, v in env.items() if k != "coords"})     # does the class of the positions matter?
             if env["n"] > 1:
